@@ -158,17 +158,18 @@ theorem digit_bounds (d : Nat) (h : isDigitC d = true) : 48 ≤ d ∧ d ≤ 57 :
 
 /-- what follows an operand in a rendered instruction line -/
 structure Follow (rest : Txt) : Prop where
-  head : ∀ c r, rest = c :: r → isBlankC c = true ∨ c = 44 ∨ c = 47
-  next : ∀ c r, skipWs rest = c :: r → c = 44 ∨ c = 47
+  head : ∀ c r, rest = c :: r → isBlankC c = true ∨ c = 44 ∨ c = 47 ∨ c = 93
+  next : ∀ c r, skipWs rest = c :: r → c = 44 ∨ c = 47 ∨ c = 93
   noShift : ∀ r, lit true [44] rest = some r → shiftOp r = none
 
 theorem Follow.stops (p : Nat → Bool) (rest : Txt) (h : Follow rest)
-    (hp : p 32 = false ∧ p 9 = false ∧ p 44 = false ∧ p 47 = false) : StopsAt p rest := by
+    (hp : p 32 = false ∧ p 9 = false ∧ p 44 = false ∧ p 47 = false ∧ p 93 = false) : StopsAt p rest := by
   intro c r hc
-  rcases h.head c r hc with hb | rfl | rfl
+  rcases h.head c r hc with hb | rfl | rfl | rfl
   · simp [isBlankC] at hb; rcases hb with rfl | rfl <;> simp [hp]
   · exact hp.2.2.1
-  · exact hp.2.2.2
+  · exact hp.2.2.2.1
+  · exact hp.2.2.2.2
 
 theorem clitOr_none (b : Bool) (ls : List Txt) (s : Txt) (h : ∀ l ∈ ls, clit b l s = none) :
     clitOr b ls s = none := by
